@@ -26,6 +26,25 @@ def gen_areas(rng):
     return kind, [box(-16, -16, 2, 16), box(-4, -10, 16, 10)]
 
 
+def self_overlaps(pts) -> bool:
+    """the polyline runs back along itself (two of its segments share a stretch of positive length); exact on the 1/8 lattice.
+    For such a line "the length of trace-intersect-areas" is the measure of a point SET (GEOS counts the doubled stretch once)
+    while the path length counts it twice: the statement of C07 is about lines for which the two agree."""
+    q = [(round(x * 8), round(y * 8)) for x, y in pts]
+    sg = list(zip(q[:-1], q[1:]))
+    for i in range(len(sg)):
+        for j in range(i + 1, len(sg)):
+            (a, b), (c, d) = sg[i], sg[j]
+            ux, uy = b[0] - a[0], b[1] - a[1]
+            if ux * (d[1] - c[1]) - uy * (d[0] - c[0]) != 0 or ux * (c[1] - a[1]) - uy * (c[0] - a[0]) != 0:
+                continue  # not collinear
+            uu = ux * ux + uy * uy
+            s0, s1 = sorted([ux * (c[0] - a[0]) + uy * (c[1] - a[1]), ux * (d[0] - a[0]) + uy * (d[1] - a[1])])
+            if max(s0, 0) < min(s1, uu):
+                return True
+    return False
+
+
 def gen_frame(rng, areas):
     import geopandas as gpd
     from shapely.geometry import LineString
@@ -49,7 +68,7 @@ def gen_frame(rng, areas):
             pts = [(rng.randint(-192, 192) / 8, rng.randint(-192, 192) / 8)]
             for _ in range(k - 1):
                 pts.append((pts[-1][0] + rng.randint(-160, 160) / 8, pts[-1][1] + rng.randint(-160, 160) / 8))
-            if len(set(pts)) < len(pts):
+            if len(set(pts)) < len(pts) or self_overlaps(pts):
                 continue
             geoms.append(LineString(pts))
     if not geoms:
